@@ -7,6 +7,9 @@ C11 driver.  Case grammar (hex fields, `-` = empty):
 * `enc <key> <msg>`  — `Blowfish::new(key).encrypt(msg)`
 * `dec <key> <data>` — `Blowfish::new(key).decrypt(data)`
 * `rt <key> <msg>`   — `decrypt(encrypt(msg))`
+* `seq <key> <e|d><hex>,<e|d><hex>,…` — ONE `Blowfish::new(key)` handle, then `encrypt` (`e`) /
+  `decrypt` (`d`) calls in that order on the same handle; the answers joined by `,`.  The
+  property gives every call the answer it has on a fresh handle (the cipher has no per-call state).
 * `kat <key> <plain> <cipher>` — a published ECB test vector (8-byte key, block and ciphertext as
   the big-endian words `L‖R` of the publication); the harness feeds the two words little-endian.
 
@@ -32,8 +35,27 @@ def bePair : Bytes → Option (UInt32 × UInt32)
 
 def wordSwap (x : UInt32 × UInt32) : Bytes := putU32le x.1 ++ putU32le x.2
 
+def seqItem (s : String) : Option (Bool × Bytes) :=
+  match s.toList with
+  | 'e' :: r => (Bytes.ofHexFast (String.ofList r)).map (true, ·)
+  | 'd' :: r => (Bytes.ofHexFast (String.ofList r)).map (false, ·)
+  | _ => none
+
 def handle (line : String) : String :=
   match fields line with
+  | ["seq", k, items] =>
+    match Bytes.ofHexFast k, (items.splitOn ",").mapM seqItem with
+    | some key, some ops =>
+      match specKey key with
+      | none => bad
+      | some ⟨k8, h8⟩ =>
+        let spec := ops.map fun (enc, m) =>
+          Bytes.toHex (if enc then Spec.Blowfish.encrypt k8 h8 m else Spec.Blowfish.decrypt k8 h8 m)
+        let model := match Blowfish.new key with
+          | none => ["none"]
+          | some st => ops.map fun (enc, m) => optHex (if enc then Blowfish.encrypt st m else Blowfish.decrypt st m)
+        answer "=" (String.intercalate "," spec) [] (some (String.intercalate "," model))
+    | _, _ => bad
   | [op, k, m] =>
     match Bytes.ofHexFast k, Bytes.ofHexFast m with
     | some key, some msg =>
